@@ -35,12 +35,12 @@ func (d epDef) LexBytes(filename string, b []byte) (lexer.Lexer, error) {
 
 func TestVerif_C15C18_EntryPoints(t *testing.T) {
 	res := &xResult{Check: "entry points", Property: "C15 C18", Exhaustive: false,
-		Bound: "3 lexer definitions (stateful, text/scanner, one offering Lex / LexString / LexBytes) x {no mapper, Upper + Unquote mappers} x 9 inputs (valid, lexing error, parse error, leading byte order mark, empty) x 8 entry points (ParseString, ParseBytes, Parse from strings.Reader, one-byte reader, data-with-EOF reader, section reader, ParseFromLexer over the parser's own lexer, Trace on); AllowTrailing and Trace also through ParseBytes and Parse",
+		Bound: "3 lexer definitions (stateful, text/scanner, one offering Lex / LexString / LexBytes) x {no mapper, Upper + Unquote mappers} x 11 inputs (valid, lexing error, parse error, leading byte order mark, empty, text that is not valid UTF-8) x 8 entry points (ParseString, ParseBytes, Parse from strings.Reader, one-byte reader, data-with-EOF reader, section reader, ParseFromLexer over the parser's own lexer, Trace on); AllowTrailing and Trace also through ParseBytes and Parse",
 		Rule: "(definition, mappers, input) triples; all non-trivial"}
 	stateful := lexer.MustSimple([]lexer.SimpleRule{{Name: "Ident", Pattern: `[a-zA-Z_]\w*`}, {Name: "Int", Pattern: `\d+`}, {Name: "String", Pattern: `"(\\.|[^"\\])*"`},
 		{Name: "Punct", Pattern: `[=;]`}, {Name: "Whitespace", Pattern: `\s+`}})
 	defs := map[string]lexer.Definition{"stateful": stateful, "text/scanner": lexer.TextScannerLexer, "all-entry-points": epDef{stateful}}
-	inputs := []string{"", "a b 12", `x = "q\n" y`, "a ? b", `a "unterminated`, "a ; b", "\ufeffa b", "a\n\n  b = 3\n", strings.Repeat("ab ", 3000)}
+	inputs := []string{"", "a b 12", `x = "q\n" y`, "a ? b", `a "unterminated`, "a ; b", "\ufeffa b", "a\n\n  b = 3\n", strings.Repeat("ab ", 3000), "x = \"caf\xe9\" y", "a \xff b"}
 	render := func(v *epItems, err error) string {
 		b, _ := json.Marshal(v)
 		if err != nil {
